@@ -328,6 +328,32 @@ def mask(ctx: Ctx):
         alt = f"self._size > self._slice.{d}_unweighted_bases"
         ctx.check_expr("mask", f"min_base_size_mask.py::MinBaseSizeMask.{d}_mask", e, [want], "mask true exactly where the unweighted base of that direction is below the threshold")
         ctx.count("mask obligations")
+        # the comparand, whatever the spelling: the threshold is compared with the PER-CELL unweighted bases of that
+        # direction (2-D, already assembled with their subtotal blocks).  A collapsed base (a scalar / 1-D margin)
+        # has lost its orientation - broadcasting it back is a guess -, a weighted base is a different quantity.
+        from ..stmts import reachable_functions, resolver
+
+        per_cell = f"self._slice.{d}_unweighted_bases"
+        known_wrong = {f"self._slice.{x}" for x in ("table_base", "rows_base", "columns_base", "table_margin", "rows_margin", "columns_margin", "row_weighted_bases", "column_weighted_bases", "table_weighted_bases")}
+        known_wrong |= {f"self._slice.{o}_unweighted_bases" for o in ("row", "column", "table") if o != d}
+        cmp_ok, wrong = None, []
+        for fn in reachable_functions(ctx.repo, ci, f"{d}_mask"):
+            res = resolver(fn, multi=True)
+            for n in ast.walk(fn):
+                if isinstance(n, ast.Compare) and len(n.ops) == 1 and isinstance(n.ops[0], (ast.Lt, ast.Gt, ast.LtE, ast.GtE)) and "self._size" in (u(n.left), u(n.comparators[0])):
+                    other = n.comparators[0] if u(n.left) == "self._size" else n.left
+                    for v in res(other):
+                        srcs = {u(x) for x in ast.walk(v) if isinstance(x, ast.Attribute) and u(x).startswith("self._slice.")}
+                        if per_cell in srcs:
+                            cmp_ok = True
+                        bad = sorted(s_ for s_ in srcs if s_ in known_wrong)
+                        if bad:
+                            wrong += bad
+        where = f"min_base_size_mask.py::MinBaseSizeMask.{d}_mask [comparand]"
+        if wrong:
+            ctx.violated("mask.comparand", where, sorted(set(wrong)), per_cell, "the mask must be true exactly where the per-cell unweighted base of that direction is below the threshold")
+        else:
+            ctx.ob("mask.comparand", where, per_cell if cmp_ok else "no comparison of a slice base with the threshold recognised", per_cell, cmp_ok)
     sl = ctx.repo.cls("cubepart.py", "_Slice")
     e = expand(ctx.repo, sl, "min_base_size_mask", stop=lambda m: True)
     ctx.check_expr("mask", "cubepart.py::_Slice.min_base_size_mask", e, "MinBaseSizeMask(self, self._mask_size)")
